@@ -1,0 +1,16 @@
+//go:build verif
+
+// SPDX-License-Identifier: Apache-2.0
+
+package v2
+
+import (
+	channeltypes "github.com/cosmos/ibc-go/v11/modules/core/04-channel/types"
+	channeltypesv2 "github.com/cosmos/ibc-go/v11/modules/core/04-channel/v2/types"
+)
+
+// VerifV2ToV1Packet exposes v2ToV1Packet to the external verification harness (build tag `verif` only).
+// Add-only: nothing here is compiled without the tag and no existing file is changed.
+func VerifV2ToV1Packet(payload channeltypesv2.Payload, sourceClient, destinationClient string, sequence uint64) (channeltypes.Packet, error) {
+	return v2ToV1Packet(payload, sourceClient, destinationClient, sequence)
+}
